@@ -9,6 +9,7 @@ the XOR of the two ciphertexts EQUALS the XOR of the two payloads on the whole f
 needs a per-report nonce, i.e. a wire/protocol change); the witness is replayed against the real
 crate on every run. What does hold is kept as `C03_partial_*`.
 -/
+import StarModel.Lemmas.Skeleton
 import StarModel.Lemmas.Keystream
 import StarModel.Lemmas.Star
 import StarModel.Props.C04
